@@ -3,6 +3,7 @@ import XlModel.Protection
 import XlModel.CondFmt
 import XlModel.DvDelete
 import XlModel.DvRecord
+import XlModel.CfRule
 import XlModel.Drv.Util
 namespace XlModel.Drv.C18
 open XlModel XlModel.Settings XlModel.Drv
@@ -99,6 +100,37 @@ def runDvDel (rules : List (List Char)) (del : List Char) : String :=
     | .ok rs =>
       let out := DvDelete.deleteRules rs d
       if out.isEmpty then "ok -" else "ok " ++ ";".intercalate (out.map showCells)
+
+/-! `cfr <24 fields>`: one ConditionalFormatOptions set on a new sheet and read back -/
+
+def parseB (s : String) : Bool := s = "1"
+
+def parseCfOpts (w : List String) : Option CfRule.Opts :=
+  match w with
+  | [ty, aa, pc, fm, cr, va, mnt, mdt, mxt, mnv, mdv, mxv, mnc, mdc, mxc, bc, bbc, bd, bo, bs, ic, ri, io, st] =>
+    match [ty, cr, va, mnt, mdt, mxt, mnv, mdv, mxv, mnc, mdc, mxc, bc, bbc, bd, ic].mapM unhexS with
+    | some [ty, cr, va, mnt, mdt, mxt, mnv, mdv, mxv, mnc, mdc, mxc, bc, bbc, bd, ic] =>
+      some ⟨ty, parseB aa, parseB pc, (if fm = "~" then none else fm.toInt?), cr, va, mnt, mdt, mxt, mnv, mdv, mxv,
+            mnc, mdc, mxc, bc, bbc, bd, parseB bo, parseB bs, ic, parseB ri, parseB io, parseB st⟩
+    | _ => none
+  | _ => none
+
+def showCfOpts (o : CfRule.Opts) : String :=
+  let b (x : Bool) := if x then "1" else "0"
+  " ".intercalate [hexS o.type, b o.aboveAverage, b o.percent,
+    (match o.format with | some n => toString n | none => "~"),
+    hexS o.criteria, hexS o.value, hexS o.minType, hexS o.midType, hexS o.maxType, hexS o.minValue, hexS o.midValue,
+    hexS o.maxValue, hexS o.minColor, hexS o.midColor, hexS o.maxColor, hexS o.barColor, hexS o.barBorderColor,
+    hexS o.barDirection, b o.barOnly, b o.barSolid, hexS o.iconStyle, b o.reverseIcons, b o.iconsOnly, b o.stopIfTrue]
+
+def runCfr (w : List String) : String :=
+  match parseCfOpts w with
+  | none => "bad-op"
+  | some o =>
+    match CfRule.setGet o with
+    | none => "E_CFR"
+    | some none => "hidden"
+    | some (some g) => "ok " ++ showCfOpts g
 
 /-! `dvb`: build a DataValidation with the public builder methods, add it, read it back -/
 
@@ -360,6 +392,7 @@ def step (st : St) (w : List String) : St × String :=
     | some a, some b => (st, "ok " ++ toString (getFirstPage (setFirstPage (setFirstPage none a) b)))
     | _, _ => (st, "bad-op")
   | "dvb" :: rest => (st, runDvb rest)
+  | "cfr" :: rest => (st, runCfr rest)
   | ["dvdel", rs, d] =>
     match (rs.splitOn ",").mapM unhexS, unhexS d with
     | some rules, some del => (st, runDvDel rules del)
